@@ -225,3 +225,16 @@ def opaque_obj(I, name, methods, ci=None, rewrite=None):
     return o
 
 
+def pub(obj, name, default=None):
+    """obj.name as a user reads it: through the class's property when the class has one (whatever private field backs
+    it), the stored attribute otherwise; ``default`` when the object has no such attribute"""
+    from ..xlate import Frame, Obj, _RaisedExc
+    if not isinstance(obj, Obj):
+        return default
+    I = getattr(obj, 'interp', None)
+    if I is not None and obj.ci is not None and I.repo.find_method(obj.ci, name, missing_ok=True) is not None:
+        try:
+            return Frame(I, obj.ci.module, {}, None, None).obj_attr(obj, name)
+        except _RaisedExc:
+            return default
+    return obj.attrs.get(name, default)
